@@ -242,14 +242,17 @@ def strat_dead(tier):
     return st.fixed_dictionaries({"shape": st.tuples(st.integers(3, 16), st.integers(3, 16)).map(list),
                                   "dead": st.lists(st.tuples(st.floats(0, 1), st.floats(0, 1)).map(list), min_size=0, max_size=5),
                                   "seed": st.integers(0, 2 ** 31 - 1), "spacing": _spacing, "origin": _origin,
-                                  "value": st.sampled_from([0.0, 0.0, -0.0])})
+                                  "value": st.sampled_from([0.0, 0.0, -0.0]),
+                                  # camera counts: integer-typed images are loaded by data_grid as they are
+                                  "dtype": st.sampled_from(["float", "float", "uint8", "uint16", "int64"])})
 
 
 def run_dead(case):
     from holopy.core.process import zero_filter
     from holopy.core.errors import BadImage
     nx, ny = case["shape"]
-    im = image(case["shape"], case["seed"], 0.5, 2.0, case["spacing"], case["origin"])
+    dt = case.get("dtype", "float")
+    im = image(case["shape"], case["seed"], 0.5, 2.0, case["spacing"], case["origin"], dtype=float if dt == "float" else np.dtype(dt))
     dead = []
     for d in case["dead"]:
         i, j = (d if isinstance(d[0], int) else (min(nx - 1, int(d[0] * nx)), min(ny - 1, int(d[1] * ny))))
@@ -261,7 +264,7 @@ def run_dead(case):
     im = im.copy(data=vals)
     fp = det_fingerprint(im)
     corners = {(0, 0), (0, ny - 1), (nx - 1, 0), (nx - 1, ny - 1)}
-    labels = ["dead_%d" % len(dead)]
+    labels = ["dead_%d" % len(dead)] + (["integer_counts"] if dt != "float" else [])
     has_corner = any(d in corners for d in dead)
     try:
         out = zero_filter(im)
@@ -278,7 +281,7 @@ def run_dead(case):
     if not np.array_equal(o[0][mask], vals[0][mask]):
         return Outcome(failure("zero_filter_touches_positive", "positive pixels were changed (max %.3g)" % np.abs(o[0][mask] - vals[0][mask]).max()), True, labels)
     for i, j in dead:
-        v = vals[0]
+        v = vals[0].astype(float)
         edge_x = i in (0, nx - 1); edge_y = j in (0, ny - 1)
         if not edge_x and not edge_y:
             want = (v[i - 1, j] + v[i + 1, j] + v[i, j - 1] + v[i, j + 1]) / 4; kind = "interior"
